@@ -82,6 +82,11 @@ impl SaslPlainMechanism {
 
 impl SaslPlainMechanism {
     fn validate_init(&self, init: SaslInit) -> Option<SaslCode> {
+        // The only mechanism offered is PLAIN: an init that selects anything else is refused,
+        // whatever it carries
+        if init.mechanism.as_str() != PLAIN {
+            return Some(SaslCode::Auth);
+        }
         let response = init.initial_response?.into_vec();
 
         let mut split = response.split(|b| *b == 0u8);
